@@ -22,6 +22,7 @@ pub struct Ipv4Header {
     checksum: u16,
     source: Ipv4Address,
     destination: Ipv4Address,
+    options: Vec<u8>,
 }
 
 #[derive(Debug)]
@@ -85,8 +86,8 @@ impl Ipv4Packet {
                 i += 1;
             }
         }
-        //  offset of payload
-        let offset = off + ihl as usize * 4;
+        //  offset of payload: after the options, never inside the fixed header
+        let offset = off + std::cmp::max(ihl as usize * 4, IPV4_HEADER_SIZE);
 
         let header = Ipv4Header {
             version,
@@ -102,6 +103,7 @@ impl Ipv4Packet {
             checksum,
             source,
             destination,
+            options,
         };
         Ok(Self {
             header: RefCell::new(header),
@@ -329,6 +331,7 @@ impl From<&Ipv4Header> for Vec<u8> {
         bytes.extend_from_slice(&b);
         let b: Vec<u8> = (&hdr.destination).into();
         bytes.extend_from_slice(&b);
+        bytes.extend_from_slice(&hdr.options);
         bytes
     }
 }
